@@ -81,6 +81,10 @@ EXPR.update({
     "ListComp.1": "[_c1 for x in _c0]", "ListComp.if": "[_c1 for x in _c0 if _c2]", "ListComp.2gen": "[_c2 for x in _c0 for y in _c1]",
     "ListComp.tuple-target": "[_c1 for a, b in _c0]",
     "SetComp.1": "{_c1 for x in _c0}", "DictComp.1": "{_c1: _c2 for x in _c0}",
+    # every comprehension form x the clause shapes (one condition, two conditions - which short-circuit -, two generators)
+    "ListComp.if2": "[_c1 for x in _c0 if _c2 if _c3]",
+    "SetComp.if": "{_c1 for x in _c0 if _c2}", "SetComp.if2": "{_c1 for x in _c0 if _c2 if _c3}", "SetComp.2gen": "{_c2 for x in _c0 for y in _c1}",
+    "DictComp.if": "{_c1: _c2 for x in _c0 if _c3}", "DictComp.if2": "{_c1: _c2 for x in _c0 if _c3 if _c4}", "DictComp.2gen": "{_c2: _c3 for x in _c0 for y in _c1}",
 })
 STMT = {
     "Assign.name": "x = _c0", "Assign.multi": "x = y = _c0", "Assign.subscript": "_c0[_c1] = _c2", "Assign.attribute": "_c0.attr = _c1",
@@ -104,7 +108,7 @@ def native_source(src):
 def h_template(name, src, mode):
     def h(eng):
         H = EvalHarness(eng)
-        if name in ("ListComp.2gen", "ListComp.tuple-target"):
+        if name in ("ListComp.2gen", "ListComp.tuple-target", "SetComp.2gen", "DictComp.2gen"):
             H.it.ITER_BOUND = 1  # nested iteration: one element per iterable (shape bound)
         node = template(src, mode)
         U = f"C01/{name}"
@@ -162,7 +166,7 @@ def b_random(seed_base, programs, what="both"):
 
 def harnesses():
     hs = []
-    heavy = {"ListComp.2gen", "ListComp.tuple-target"}  # nested iteration: thorough tier (larger budget)
+    heavy = {"ListComp.2gen", "ListComp.tuple-target", "SetComp.2gen", "DictComp.2gen"}  # nested iteration: thorough tier (larger budget)
     for name, src in EXPR.items():
         hs.append(Harness(name, h_template(name, src, "eval"), units=[(E_PY, "AstEval.aeval")], replay=replay_template, max_paths=6000,
                           tier="thorough" if name in heavy else "quick"))
